@@ -1,16 +1,13 @@
 (* Executable correspondence checker for C12 (CaoHashMap). Keys are (instance id, i64 value):
    equality and hashing look at the value only, the instance id identifies the object for the
    drop log.  Values are instance ids. *)
-From Cao Require Export CheckUtil Bits F32Load Consts ProbeDefs HashMap.
+From Cao Require Export CheckUtil Bits F32Load Consts ProbeDefs HashMap HashMapConsts.
 From Coq Require Import Sorting.Mergesort Orders.
 Local Open Scope N_scope.
 
 Definition ckey : Type := (N * Z)%type.
 Definition ckeqb (a b : ckey) : bool := Z.eqb (snd a) (snd b).
 Definition chash (k : ckey) : N := hash_i64 (snd k).
-Definition cneeds_grow : nat -> nat -> bool := needs_grow_nat hm_load_num hm_load_shift.
-Definition cnew_cap (c : nat) : nat :=
-  (Nat.max c (N.to_nat hm_grow_min) * N.to_nat hm_grow_mul) / N.to_nat hm_grow_div.
 Definition clone_off : N := 1000000.
 Definition cclone_k (k : ckey) : ckey := (fst k + clone_off, snd k).
 Definition cclone_v (v : N) : N := v + clone_off.
